@@ -24,6 +24,11 @@ CLAIMS = {
   "¬HasWith ∧ ¬KeepVarNames; every generated name passes isReserved, which consults all keywords and all undeclared variables; only renameScope writes identifier names and never the "
   "program scope, labels, property or import/export names; hoisted names are registered in intermediate scopes; the name alphabets are valid and duplicate-free.",
   OTHER_NOTE, "DESIGN.md §4 C02"),
+ "C05": ("other",
+  "must-pass-through on the CFG of the path emitter, guard classification and constant evaluation of (attribute, value) pairs in the attribute-dropping conditions",
+  "Decides (R05.1-R05.3, DESIGN.md §4 C05): emitting command bytes always updates the last-command state; an attribute is only dropped when already removed, when it carries a documented SVG default, or when it has a non-functional namespace prefix (xlink/xml exempt); "
+  "elements are dropped only under the enumerated guards. One known finding (xml:space=\"preserve\" removed). Path geometry, lengths and colours (numeric) are not decided.",
+  OTHER_NOTE, "DESIGN.md §4 C05"),
  "C06": ("other",
   "token-switch exhaustiveness against the lexer's constants, write-on-all-paths rule on the CFG, reachability under the assumed option",
   "Decides (R06.1-R06.3, DESIGN.md §4 C06): every XML token type except comments has a case that writes on all paths (only the empty CDATA section is skipped); with KeepWhitespace the tag-adjacent trim is unreachable, omitSpace is reset after start/end tags, and no whitespace-only text is singled out for dropping. "
@@ -34,6 +39,11 @@ CLAIMS = {
   "Decides (R07.1-R07.3, DESIGN.md §4 C07): only tokens starting with '-' or a digit enter the number rewrite and the token text is assigned nowhere else (strings, literals, punctuation are written byte-identical); KeepNumbers disables every rewrite; "
   "the leading-zero repair (\"0\" before `.5`, \"-0\" and sign drop before `-.5`) lies on every path to the write. Numeric equality is C08's subject and not decided here.",
   OTHER_NOTE, "DESIGN.md §4 C07"),
+ "C08": ("other",
+  "SSA store / copy / append enumeration with provenance of the destination slice, constant-byte classification",
+  "Decides two shape clauses only (R08.1, R08.2, DESIGN.md §4 C08): Decimal stores nothing but '0', '1', '-' and guarded digit increments and calls nothing, so it cannot introduce an exponent; all writes of Number/Decimal go through the parameter slice or low-bound-only reslices of it (no append, no high-bounded write target, no unsafe), so they can never touch bytes outside the slice they were given. "
+  "Value equality, rounding, `never longer` and panic-freedom are NOT decided (no numeric abstract interpretation available).",
+  OTHER_NOTE, "DESIGN.md §4 C08"),
  "C10": ("other",
   "SSA provenance of the reader argument, error-edge return analysis, limit-guard domination on the CFG",
   "Decides two structural clauses (R10.1, R10.2, DESIGN.md §4 C10): the byte/string helpers return their own parameter on error and never hand its backing array to an in-place minifier; every documented resource limit "
